@@ -5,16 +5,16 @@ V = os.path.dirname(os.path.abspath(__file__))
 rows = []
 for d in sorted(os.listdir(os.path.join(V, 'seeded'))):
     m = json.load(open(os.path.join(V, 'seeded', d, 'meta.json')))
-    wave = next(w for w in '1234' if ('wave ' + w) in m['origin'])
+    wave = next(w for w in '12345' if ('wave ' + w) in m['origin'])
     v = m['verdicts']
     main = v.get(m['breaks_property'], '')
     rows.append((wave, d, m['breaks_property'], main.startswith('MISSED'), main, {k: x for k, x in v.items() if k != m['breaks_property']}))
-per = {w: (sum(1 for r in rows if r[0] == w), sum(1 for r in rows if r[0] == w and r[3])) for w in '1234'}
+per = {w: (sum(1 for r in rows if r[0] == w), sum(1 for r in rows if r[0] == w and r[3])) for w in '12345'}
 total = len(rows); missed = sum(1 for r in rows if r[3])
 out = []
 out.append('''## 9. Seeded changes written by independent sub-agents
 
-Four waves of fresh sub-agents, each given only the text of one property (from
+Five waves of fresh sub-agents, each given only the text of one property (from
 wave 3 on additionally a one-line hint naming clauses of that same statement
 to aim at, different per wave) and a scratch worktree of `/repo`, produced one
 change each that breaks the property, compiles and passes the existing tests,
@@ -35,8 +35,8 @@ are now reported by the quick tier. Two of the extensions found defects in the
 showed that one earlier repair had made an existing test flaky (row 14).
 
 | wave | change | property | verdict of the owning check (quick tier) |
-|---|---|---|---|''' % (' + '.join(str(per[w][0]) for w in '1234'), total, total - missed, missed,
-         ', '.join('wave %s: %d' % (w, per[w][1]) for w in '1234'), total))
+|---|---|---|---|''' % (' + '.join(str(per[w][0]) for w in '12345'), total, total - missed, missed,
+         ', '.join('wave %s: %d' % (w, per[w][1]) for w in '12345'), total))
 for wave, d, prop, m, main, others in rows:
     out.append('| %s | `%s` | %s | %s |' % (wave, d, prop, main.replace('|', '\\|')))
 out.append('''
@@ -55,14 +55,19 @@ files):
   `Close` racing the adds of an iterated container (C20); no `Wait` landing
   inside `Start` (C10); pools only ever ended through their context, never by
   closing the work queue (C11); waiter functions called exactly once (C15);
-  bounded broker back-ends only at capacity 2 (C09, wave 1).
+  bounded broker back-ends only at capacity 2 (C09, wave 1); inputs that are
+  always finite and promptly fed, so that no `ReadOne` is ever parked on its
+  input when `Close` arrives (C04); no broker context with a deadline (C09);
+  JSON documents without `null`, `Wrapf` templates without `%w` (C02, C12).
 * **oracle narrower than the statement**: only calls *invoked after* the last
   `Limit` execution were compared with its result (C15); under removals the
   iterator was only required not to panic and to return on Close/cancel, not
   to deliver items that were never removed (C20); "free capacity" of a quota
   queue judged only at `Len()==0` (C07 - now decided by the sequential model's
   exact state: operations still blocked at quiescence become observations that
-  must be consistent with every linearization).
+  must be consistent with every linearization); a busy loop after shutdown
+  only ever exhausted the step budget, which is inconclusive - C09 now has a
+  bounded-liveness clause for the phase after the faults have stopped.
 
 Cross-property verdicts (a change reported by a check other than its own, or
 explicitly not): ''' + '; '.join('`%s`: %s' % (d, ', '.join('%s %s' % (k, x) for k, x in o.items())) for _, d, _, _, _, o in rows if o) + '.')
